@@ -16,14 +16,28 @@ SUBDIRS = ["model", "proofs", "props", "gen"]
 
 
 class _Lock:
+    """Re-entrant (per process) exclusive lock over coq/gen + the .vo build: translate, make and
+    Print Assumptions of one check run form one critical section, so concurrent checks (possibly
+    against different source trees, see VERIF_REPO) never see each other's generated files."""
+    depth = 0
+    f = None
+
     def __enter__(self):
-        self.f = open(LOCK, "w")
-        fcntl.flock(self.f, fcntl.LOCK_EX)
+        if _Lock.depth == 0:
+            _Lock.f = open(LOCK, "w")
+            fcntl.flock(_Lock.f, fcntl.LOCK_EX)
+        _Lock.depth += 1
         return self
 
     def __exit__(self, *a):
-        fcntl.flock(self.f, fcntl.LOCK_UN)
-        self.f.close()
+        _Lock.depth -= 1
+        if _Lock.depth == 0:
+            fcntl.flock(_Lock.f, fcntl.LOCK_UN)
+            _Lock.f.close()
+
+
+def locked():
+    return _Lock()
 
 
 def _write_if_changed(path: str, text: str) -> bool:
